@@ -52,5 +52,43 @@ def main():
         json.dump(res, open(os.path.join(d, f"result-{tier}.json"), "w"), indent=1)
     return 0
 
+def readme():
+    rows = []
+    for patch in sorted(glob.glob(os.path.join(V, "seeded", "*", "*", "patch.diff"))):
+        d = os.path.dirname(patch)
+        prop, name = os.path.basename(os.path.dirname(d)), os.path.basename(d)
+        meta = {}
+        try:
+            meta = json.load(open(os.path.join(d, "meta.json")))
+        except Exception:
+            pass
+        res = {}
+        for tier in ("quick", "thorough"):
+            f = os.path.join(d, f"result-{tier}.json")
+            if os.path.exists(f):
+                res[tier] = json.load(open(f))
+        own = "not run"
+        others = []
+        for tier, r in res.items():
+            c = r["checks"].get(prop)
+            if c:
+                v = [l for l in c["lines"] if l.startswith("VIOLATION")]
+                own = (f"{tier}: DETECTED" + (" (no failing input found)" if v and all(l.endswith("no-failing-input-found") for l in v) else " with failing input")) if v else (own if own.startswith(("quick: DETECTED", "thorough: DETECTED")) else f"{tier}: missed")
+            others += [p for p in r.get("detected_by", []) if p != prop]
+        files = ", ".join(sorted(set(l[6:] for l in open(patch) if l.startswith("+++ b/"))))
+        rows.append((prop, name, (meta.get("summary") or "").replace("\n", " ").replace("|", "/")[:220], files.strip(), own, ", ".join(sorted(set(others))) or "-"))
+    out = ["# Seeded changes", "",
+           "Each directory holds a change written by a fresh sub-agent that saw only the property text and a scratch worktree:",
+           "`patch.diff` (apply with `git -C /repo apply`), `meta.json` (what/why/when), `demo/` (the agent's own demonstration),",
+           "`result-<tier>.json` (what `tools/seeded.py` observed: exit code and VIOLATION lines of the registered check).", "",
+           "| property | change | summary | files | own check | also caught by |", "|---|---|---|---|---|---|"]
+    for r in rows:
+        out.append("| " + " | ".join(r) + " |")
+    open(os.path.join(V, "seeded", "README.md"), "w").write("\n".join(out) + "\n")
+    print(f"seeded/README.md: {len(rows)} changes")
+
+
 if __name__ == "__main__":
+    if "--readme" in sys.argv:
+        readme(); sys.exit(0)
     sys.exit(main())
